@@ -1505,6 +1505,7 @@ class AgProtocol(utils.EventEmitter):
                 f'display={display!r}, indicator={indicator!r}'
             )
             self.send_cme_error(CmeError.INVALID_INDEX)
+            return
 
         self.indicator_report_enabled = bool(int(indicator))
         self.send_ok()
